@@ -93,6 +93,17 @@ CHECKS["C13"] = {
     ],
 }
 
+CHECKS["C09"] = {
+    "pkg": "c09",
+    "level": "exploration",
+    "technique": "stateful property-based testing (rapid state machine) with ground-truth topology history, a stale-answer PD shim, geometric coverage validity predicates and a per-probe-key non-regression monitor",
+    "level_text": "Random interleavings of topology changes, stale PD answers, every lookup API, invalidation and real sends; after every lookup containment/coverage/grouping are checked geometrically (so stale-but-contiguous answers are accepted - the property does not demand freshness), 17 probe keys are compared before/after each operation for installed-older-over-newer, and at the end every probe key must reach the current leader through the standard relocate loop. Sampling, not proof.",
+    "level_note": "Trusted: the mocktikv Cluster as topology ground truth (the harness patches its epochs to TiKV's rules: both halves of a split get parent.ver+1, a merge max+1, because the cache's staleness rule is defined on such epochs); TTL expiry is not exercised (needs >=1 s of real time per case).",
+    "tests": [
+        {"name": "TestRegionCache", "quick": 4000, "thorough": 15000, "shards": 16},
+    ],
+}
+
 # properties without a registered check, with the reason (kept current by hand)
 NOT_CLAIMED = {}
 
